@@ -97,9 +97,30 @@ def run(prog, tier):
         derivation(prog, chk, names, unit, ck_type)
     fill_loops(prog, chk, names)
     accessors(prog, chk, names)
+    record_names(prog, chk, names)
     if tier == 'thorough' and getattr(prog, 'generated_path', None):
         cells(prog, chk, names, ck_type)
     return chk
+
+
+def record_names(prog, chk, names):
+    """"each rate is the raw rate of THAT transition": the reader files a record of data/auger_rates.dat under the slot whose entry
+    of AugerName / AugerNameTotal (src/xrayvars.c) equals the record's name, so entry k must be the name of the macro with value k.
+    Same table analysis as rules/c01.py (name-slot), read here for the two Auger name tables."""
+    from rules import c01
+    shim = Check('C11', 'quick', 'other', '', [], [])
+    c01.name_tables(prog, shim, names)
+    n = 0
+    for rule, inst, why, loc in shim.held:
+        if rule == 'name-slot' and inst.startswith(('AugerName:', 'AugerNameTotal:')):
+            n += 1
+            chk.ok('auger-name-slot', inst, why, loc, nontrivial=False)
+    for v in shim.violations:
+        if v['rule'] in ('name-slot', 'name-table-size') and v['function'] in ('AugerName', 'AugerNameTotal'):
+            n += 1
+            chk.bad('auger-name-slot', v['unit'], v['function'], v['instance'], v['loc'],
+                    'records of data/auger_rates.dat are filed under the wrong transition: ' + v['message'])
+    chk.floor('Auger name table entries', n, 1000)
 
 
 def derivation(prog, chk, names, U, ck_type):
